@@ -19,6 +19,7 @@ import (
 	"regexp"
 	"runtime/debug"
 	"sort"
+	"strconv"
 	"strings"
 	"sync"
 	"time"
@@ -358,6 +359,13 @@ func shrink(s *stream, args []string) []string {
 	if !failing(args) {
 		return args
 	}
+	// the shrunk case is a convenience, the original case is already a replay: stop after a budget (long
+	// texts with a slow oracle took 5-20 minutes per case, which a caller with a deadline does not have)
+	budget := 25 * time.Second
+	if v, err := strconv.Atoi(os.Getenv("VERIF_SHRINK_BUDGET")); err == nil && v > 0 {
+		budget = time.Duration(v) * time.Second
+	}
+	deadline := time.Now().Add(budget)
 	cur := append([]string(nil), args...)
 	hasBytes := false
 	for _, a := range cur {
@@ -385,6 +393,9 @@ func shrink(s *stream, args []string) []string {
 		}
 		for chunk := len(units) / 2; chunk >= 1; chunk /= 2 {
 			for i := 0; i+chunk <= len(units); {
+				if time.Now().After(deadline) {
+					return cur
+				}
 				cand := append(append([]string(nil), units[:i]...), units[i+chunk:]...)
 				try := append([]string(nil), cur...)
 				try[idx] = join(cand)
